@@ -14,7 +14,7 @@ import gc
 
 from hypothesis import strategies as st
 
-from traits.api import HasTraits, Int, List, Range, TraitError, push_exception_handler, pop_exception_handler
+from traits.api import HasTraits, Any, Int, List, Range, TraitError, push_exception_handler, pop_exception_handler
 
 ID = "C20"
 LEVEL = "exploration"
@@ -37,6 +37,11 @@ class A(HasTraits):
     xs = List(Int)
     ys = List(Int)
     zs = List(Int, maxlen=3)
+    # "taps": non-list attributes that may be made ONE-WAY partners of the list traits (they take whole values only and feed
+    # nothing back; they are not part of the model - the list partners must behave as if the taps were not there)
+    tap_xs = Any
+    tap_ys = Any
+    tap_zs = Any
 
     def _ys_default(self):
         # (a List trait whose default comes from a method is a List trait like any other)
@@ -71,6 +76,7 @@ OP = st.one_of(
     # a one-shot handler on objs[t].v that DROPS another object (its last reference) when called - a partner may then be
     # collected while a propagation is walking over it
     st.tuples(st.just("arm_drop"), I2, I2),
+    st.tuples(st.just("tap"), I2, st.sampled_from(LISTS), I2),
 ).map(list)
 
 
@@ -91,6 +97,8 @@ def strategy(tier):
                                   "prelude": st.sampled_from([None, None, None, "scalar", "list", "scalar-one-way", "drop-later-partner", "unlink-later-partner"]),
                                   # how each successive sync_trait call is SPELLED: [omit the alias argument when it equals the
                                   # trait name, issue the removal of a mutual link from the partner's side]
+                                  # non-list one-way partners of list traits, attached BEFORE the first generated link
+                                  "taps": st.lists(st.tuples(I2, st.sampled_from(LISTS), I2).map(list), max_size=2),
                                   "spell": st.lists(st.tuples(st.booleans(), st.booleans()).map(list), min_size=6, max_size=6)})
 
 
@@ -246,7 +254,8 @@ def run(case, ctx):
         for dst in out_edges(key):
             adopt(dst, seen)
 
-    ops = (FANOUT[case["prelude"]] if case.get("prelude") else []) + list(case["ops"])
+    ops = ([["tap"] + list(t) for t in case.get("taps") or []] + (FANOUT[case["prelude"]] if case.get("prelude") else [])
+           + list(case["ops"]))
     if case.get("prelude"):
         ctx.label("fanout:" + case["prelude"])
     try:
@@ -267,6 +276,14 @@ def run(case, ctx):
                     k = "sync"
                     interesting = True
                     ctx.label("resync")
+                if k == "tap":
+                    i, n, j = op[1], op[2], op[3]
+                    if i == j or objs[i] is None or objs[j] is None:
+                        continue
+                    objs[i].sync_trait(n, objs[j], "tap_" + n, mutual=False)
+                    ctx.label("non-list-partner-of-a-list-trait" + ("" if any(e[0] == i and e[1] == n for e in edges) else ":first"))
+                    interesting = True
+                    continue
                 if k == "arm_drop":
                     t, j = op[1], op[2]
                     if t == j or objs[t] is None or objs[j] is None or armed["drop"] is not None:
